@@ -851,6 +851,9 @@ func (f *FnEnc) applyContract(spec *FuncSpec, sig *types.Signature, name string,
 	}
 	ctx2 := &SpecCtx{e: e, f: f, vars: post, st: f.st, old: pre, pkg: f.pkgOf(spec)}
 	for _, c := range spec.Ensures {
+		if c.NoAssume {
+			continue
+		}
 		g := f.evalClauseSafe(ctx2, c)
 		f.assume(g)
 	}
